@@ -101,6 +101,7 @@ type interpreter struct {
 	stdInitOK          map[string]bool
 	errorStringType    types.Type
 	lockMon            *lockMonitor
+	sharedMon          *sharedMon
 	stubs              map[string]*ssa.Function // full function name -> harness stub
 	lenient            int // > 0 while formatting an error message (placeholders instead of symbolic formatting)
 	timeType           types.Type
@@ -271,6 +272,16 @@ func visitInstr(fr *frame, instr ssa.Instruction) continuation {
 		fr.get(instr.Chan).(chan value) <- fr.get(instr.X)
 
 	case *ssa.Store:
+		if fr.i.sharedMon != nil {
+			switch a := fr.get(instr.Addr).(type) {
+			case *value:
+				fr.i.sharedStore(a, fr, "store")
+			case symptr:
+				if len(a.elems) > 0 {
+					fr.i.sharedStore(&a.elems[0], fr, "store through a symbolic index")
+				}
+			}
+		}
 		fr.i.storeTo(typeparams.MustDeref(instr.Addr.Type()), fr.get(instr.Addr), fr.get(instr.Val))
 
 	case *ssa.If:
@@ -378,6 +389,7 @@ func visitInstr(fr *frame, instr ssa.Instruction) continuation {
 			if m == nil {
 				panic(targetPanic{rtErr("assignment to entry in nil map")})
 			}
+			fr.i.sharedMapWrite(m, fr, "map update")
 			m.insert(fr.i, key, v)
 		default:
 			panic(fmt.Sprintf("illegal map type: %T", m))
@@ -508,6 +520,11 @@ func loc(fset *token.FileSet, pos token.Pos) string {
 // callSSA interprets a call to function fn with arguments args,
 // and lexical environment env, returning its result.
 // callpos is the position of the callsite.
+// interpretInstead is returned by an external model that declines a call (e.g. a
+// native model that only handles concrete arguments): the function's own SSA is
+// interpreted instead.
+type interpretInstead struct{}
+
 func callSSA(i *interpreter, caller *frame, callpos token.Pos, fn *ssa.Function, args []value, env []value) value {
 	if i.mode&EnableTracing != 0 {
 		fset := fn.Prog.Fset
@@ -539,9 +556,11 @@ func callSSA(i *interpreter, caller *frame, callpos token.Pos, fn *ssa.Function,
 				}
 			} else {
 				if ext := externals[name]; ext != nil {
-					return ext(fr, args)
-				}
-				if ext := genericExternal(name); ext != nil {
+					r := ext(fr, args)
+					if _, decline := r.(interpretInstead); !decline {
+						return r
+					}
+				} else if ext := genericExternal(name); ext != nil {
 					return ext(fr, fn, args)
 				}
 				if !(allowed(name) && fn.Blocks != nil) {
@@ -557,7 +576,10 @@ func callSSA(i *interpreter, caller *frame, callpos token.Pos, fn *ssa.Function,
 			return callSSA(i, caller, callpos, st, args, nil)
 		}
 		if ext := externals[name]; ext != nil {
-			return ext(fr, args)
+			r := ext(fr, args)
+			if _, decline := r.(interpretInstead); !decline {
+				return r
+			}
 		}
 		if fn.Blocks == nil {
 			panic(unsupportedAbort{"no code for function: " + name})
